@@ -308,6 +308,36 @@ inline Paths64 sortedOpen(const Paths64& pp) {
   return r;
 }
 
+// doubled coordinates: edge midpoints become exact integer points
+inline Point64 dbl(const Point64& p) { return Point64(p.x * 2, p.y * 2); }
+inline Path64 dblPath(const Path64& p) { Path64 r; r.reserve(p.size()); for (auto& q : p) r.push_back(dbl(q)); return r; }
+// Is closed path `in` inside (1), outside (0) the closed path `outer`, judged at the edge midpoints of `in`
+// that do not lie on `outer`?  -1: every midpoint lies on outer (unresolved); -2: some inside, some outside.
+inline int insideByMidpoints(const Path64& in, const Path64& outerDoubled) {
+  int nin = 0, nout = 0;
+  size_t n = in.size();
+  for (size_t k = 0; k < n; ++k) {
+    Point64 mid(in[k].x + in[(k + 1) % n].x, in[k].y + in[(k + 1) % n].y);
+    Wn w = winding(mid, outerDoubled);
+    if (w.on) continue;
+    if (w.w != 0) ++nin; else ++nout;
+  }
+  if (nin && nout) return -2;
+  if (!nin && !nout) return -1;
+  return nin ? 1 : 0;
+}
+
+// a closed path is "composite" if two of its non-adjacent edges have a point in common (it touches or crosses itself)
+inline bool compositePath(const Path64& p) {
+  size_t n = p.size();
+  for (size_t i = 0; i < n; ++i)
+    for (size_t j = i + 1; j < n; ++j) {
+      if (j == i + 1 || (i == 0 && j == n - 1)) continue;
+      if (segsTouch(p[i], p[(i + 1) % n], p[j], p[(j + 1) % n])) return true;
+    }
+  return false;
+}
+
 inline std::string ptStr(const Point64& p) {
   return "(" + std::to_string(p.x) + "," + std::to_string(p.y) + ")";
 }
